@@ -44,10 +44,9 @@ pub fn judge_line(
             return;
         }
         if let Some(h) = observed {
-            rep.violate(
+            rep.violate_key(
                 format!("{pid}:unknown-line-attributed-to-ai"),
-                format!("{ctx}: {source} attributes {path}:{lineno} {content:?} (never written by the case) to {}", fmt_author(w, Some(h))),
-            );
+                format!("{ctx}: {source} attributes {path}:{lineno} {content:?} (never written by the case) to {}", fmt_author(w, Some(h))), &key_of(content));
         }
         return;
     };
@@ -56,10 +55,9 @@ pub fn judge_line(
         Some(h) => w.actor_of_hash(h),
     };
     let Some(obs) = obs_actor else {
-        rep.violate(
+        rep.violate_key(
             format!("{pid}:unknown-session"),
-            format!("{ctx}: {source} attributes {path}:{lineno} to a session hash no agent used: {:?}", observed),
-        );
+            format!("{ctx}: {source} attributes {path}:{lineno} to a session hash no agent used: {:?}", observed), &key_of(content));
         return;
     };
     if !e.strict {
@@ -69,15 +67,13 @@ pub fn judge_line(
             && !e.writers.contains(&obs)
             && w.model.del_neighbors.get(&key_of(content)).map(|d| d.contains(&obs)).unwrap_or(false)
         {
-            rep.violate(
+            rep.violate_key(
                 format!("{pid}:line-adjacent-to-deletion-attributed-to-deleter"),
-                format!("{ctx}: {source} filler {path}:{lineno} {content:?} adjacent to a whole-line deletion by {}, reported {}", fmt_actor(obs), fmt_actor(obs)),
-            );
+                format!("{ctx}: {source} filler {path}:{lineno} {content:?} adjacent to a whole-line deletion by {}, reported {}", fmt_actor(obs), fmt_actor(obs)), &key_of(content));
         } else if obs.is_ai() && !e.writers.contains(&obs) {
-            rep.violate(
+            rep.violate_key(
                 format!("{pid}:filler-attributed-to-non-writer"),
-                format!("{ctx}: {source} attributes filler {path}:{lineno} {content:?} to {} which never wrote such a line", fmt_actor(obs)),
-            );
+                format!("{ctx}: {source} attributes filler {path}:{lineno} {content:?} to {} which never wrote such a line", fmt_actor(obs)), &key_of(content));
         }
         return;
     }
@@ -95,43 +91,40 @@ pub fn judge_line(
         // change. The property speaks of the edits leading to *a* commit, so the
         // cross-commit case is judged by the safety rule only (observation O1).
         rep.judged_weak += 1;
-        if obs.is_ai() && !w.model.ws_touchers.contains(&obs) {
-            rep.violate(
+        if obs.is_ai() && !w.model.ws_touchers.contains(&obs) && !e.ws_touchers.contains(&obs) {
+            rep.violate_key(
                 format!("{pid}:recommitted-line-attributed-to-uninvolved-session"),
                 format!(
                     "{ctx}: {source} {path}:{lineno} {content:?}: owner {} (earlier commit), whitespace re-touched by {:?}, reported {}",
                     fmt_actor(e.last),
                     w.model.ws_touchers,
                     fmt_actor(obs)
-                ),
-            );
+                ), &key_of(content));
         }
         return;
     }
     if e.last_was_pure_deletion && (e.prev_chain.contains(&obs) || obs == Actor::Human) {
         // F14: intra-line pure deletion reverts to the previous author
-        rep.violate(
+        rep.violate_key(
             format!("{pid}:pure-token-deletion-reverts-to-previous-author"),
             format!(
                 "{ctx}: {source} {path}:{lineno} {content:?}: last substantive change was a pure intra-line deletion by {}, reported {}",
                 fmt_actor(e.last),
                 fmt_actor(obs)
-            ),
-        );
+            ), &key_of(content));
         return;
     }
     if w.model.del_neighbors.get(&key_of(content)).map(|d| d.contains(&obs)).unwrap_or(false) {
         // F25: a whole-line deletion leaves a zero-length marker that makes the
         // deleter the author of the unchanged neighbouring line
-        rep.violate(
+        rep.violate_key(
             format!("{pid}:line-adjacent-to-deletion-attributed-to-deleter"),
             format!(
                 "{ctx}: {source} {path}:{lineno} {content:?}: owner {}, adjacent to a whole-line deletion by {}, reported {}",
                 fmt_actor(e.last),
                 fmt_actor(obs),
                 fmt_actor(obs)
-            ),
-        );
+            ), &key_of(content));
         return;
     }
     rep.judged_strict += 1;
@@ -143,14 +136,13 @@ pub fn judge_line(
         (Actor::Human, Actor::Ai(_)) => "human-line-reported-ai",
         _ => "wrong-session",
     };
-    rep.violate(
+    rep.violate_key(
         format!("{pid}:{sig}"),
         format!(
             "{ctx}: {source} {path}:{lineno} {content:?}: expected {} (last substantive editor), reported {}",
             fmt_actor(e.last),
             fmt_author(w, observed)
-        ),
-    );
+        ), &key_of(content));
 }
 
 pub struct CommitObservation {
